@@ -55,6 +55,8 @@ class BaseProp:
             return
         run(Schedule("alt", seed=derive(case_seed, "alt")))
         run(Schedule("alt2", seed=derive(case_seed, "alt2")))
+        run(Schedule("lo1", seed=derive(case_seed, "lo1")))      # every draw one above its minimum
+        run(Schedule("hi1", seed=derive(case_seed, "hi1")))      # every draw one below its maximum
         r = None
         for i in range(min(n_lo, flip_n)):
             run(Schedule("lo", seed=derive(case_seed, "flo", i), overrides={i: "hi"}))
